@@ -28,7 +28,7 @@ ASSUMPTIONS = ASSUME_SIM + ["values not expressible in the inline notation (list
 
 STRINGS = ["a", "hello world", "k=v", "a in b", "it's", 'say "hi"', "5", "-1.5", "true", "False", "null", "", " padded ",
            "a,b", "a, b", "semi;colon", "{notjson}", "x=1 y=2", "tab\there", "ünï cødé", "ends with quote'", "'starts", '"dq',
-           "100%", "back\\slash", "[1, 2]", "a=\"b\""]
+           "100%", "back\\slash", "[1, 2]", "a=\"b\"", "two\nlines", "trailing newline\n"]
 OBJS = [{"a": 1}, {"k": "v w", "n": [1, 2]}, {}, {"nested": {"x": None, "y": True}}, {"s": "with = and , inside"}]
 EXPRS = ["<% ctx(x) %>", "{{ ctx('y') }}", "<% ctx(x) + 1 %>", "{{ ctx('y') ~ '!' }}", "<% ctx().y %>"]
 NUMS = [0, 5, -3, 12345678901234567890, -99999999999999999999, 1.5, -0.25, 100.0, 0.001]
@@ -160,7 +160,9 @@ def to_short(wf, rng):
                 del tr["do"]
                 conv.append((nm, "do-omitted", []))
             elif "do" in tr and rng.random() < 0.6:
-                tr["do"] = rng.choice([", ", ","]).join(tr["do"])
+                tr["do"] = rng.choice([", ", ",", " , ", " ,", ",  "]).join(tr["do"])
+                if rng.random() < 0.2:
+                    tr["do"] = " " + tr["do"] + " "
                 conv.append((nm, "do-string", []))
     return w, conv
 
